@@ -143,7 +143,7 @@ def r3(run, db):
             continue
         run.saw(len(f.blocks), f)
         n += table_check(run, db, f, f.id.replace("ractor::rpc::", ""))
-    run.anchor("reply waits", n, 6)
+    run.anchor("reply waits", n, 2)      # at least one wait with and one without deadline; call sites may share them
 
 
 def r4(run, db):
@@ -169,7 +169,7 @@ def r4(run, db):
                         okparam = okparam or ("Option<" in ty and "Duration" in ty)
                 run.check(good and okparam, "deadline-from-param:%s" % f.id.replace("ractor::rpc::", ""), "the deadline passed to timeout() is the caller's timeout parameter, unmodified",
                           "the wait's deadline does not originate (solely) from the caller's timeout parameter: %s" % [(r["k"], r["call"].name if r["k"] == "call" else "") for r in roots], c.where())
-    run.anchor("timeout() waits", n, 3)
+    run.anchor("timeout() waits", n, 1)
     # which branch (deadline / no deadline) is taken: switch on the same parameter
     for f in waiting_bodies(db):
         if f.kind != "coroutine" and not f.id.endswith("multi_call::{closure#0}"):
@@ -337,7 +337,7 @@ def r9(run, db):
             edges.append(e2)
         run.check(bool(edges), "multi|send-result-tested", "the result of each send is tested", "a send result in multi_call is never tested: a dead callee goes unnoticed and its reply is awaited", c.where())
         for e in edges:
-            reach = f.reach(Site(e[1], 0))
+            reach = edge_path_sites(f, [e])        # (paths on which the values built along the way are read back consistently)
             bad = sorted(waits & reach)
             run.check(not bad, "multi|refused-send-returns-at-once", "on the refused-send edge no reply is awaited and no waiter is spawned before the function returns",
                       "after a refused send multi_call goes on to wait for replies (sites %s) while the refused message, and the reply port inside it, is still alive: that callee's receiver can never observe a closed port" % [str(x) for x in bad[:4]], c.where())
